@@ -1,4 +1,9 @@
-"""C16 trace checker: a bulk call must be exactly one scalar call per cell, in row order."""
+"""C16: a bulk call must transform every cell as the dictated scalar method would; fail atomically (files).
+
+The oracle is the scalar method itself, asked by the monitor for every cell captured before the call; the trace of
+scalar calls the bulk operation made is recorded as evidence (it is how the current implementation works, but the
+property does not require it).
+"""
 
 from __future__ import annotations
 
@@ -129,45 +134,46 @@ class BulkMonitor(Monitor):
             rows = ctx["rows"]
             cells = [r[ctx["column"]] if len(r) > ctx["column"] else None for r in rows]
             w.update(column=ctx["column"], separator=ctx["delimiter"], header=ctx["head"], rows=rows)
-        # 1. the sequence of scalar calls
-        seq_ok = True
-        for i, ev in enumerate(calls):
-            ekw = ev["kwargs"]
-            if ev["fn"] != ctx["scalar"] or bool(ekw.get("strict", False)) != ctx["strict"] or bool(ekw.get("passthrough", False)) != ctx["pt"]:
-                violation(["C16"], mon, "bulk-uses-wrong-scalar-method-or-flags", expected_method=ctx["scalar"],
-                          observed_method=ev["fn"], observed_flags=probe.jsonable(ekw), position=i, **w)
-                seq_ok = False
-                break
-            if i >= len(cells) or len(ev["args"]) < 2 or ev["args"][1] != cells[i]:
-                mech = "scalar-calls-do-not-follow-the-cells-in-row-order"
-                if i < len(cells) and isinstance(cells[i], str) and "\r" in cells[i]:
-                    mech = "carriage-return-in-cell-rewritten"
-                violation(["C16"], mon, mech, position=i,
-                          cell=cells[i] if i < len(cells) else None, scalar_argument=ev["args"][1] if len(ev["args"]) > 1 else None, **w)
-                seq_ok = False
-                break
-        if not seq_ok:
-            return
-        raised_scalar = bool(calls) and calls[-1]["outcome"][0] == "raise"
+        # The oracle: what the dictated scalar method, with the dictated flags, answers for each cell - asked by the
+        # monitor itself (monitor mode: not traced, no failpoint), so it does not depend on *how* the bulk operation is
+        # implemented.  The recorded trace of scalar calls made by the bulk call is kept as evidence and cross-check.
+        scalar = getattr(conv, ctx["scalar"])
+        expected = []
+        first_failure = None
+        for i, cell in enumerate(cells):
+            if cell is None:  # row too short for the column
+                expected.append(("raise", IndexError("row too short")))
+                first_failure = i if first_failure is None else first_failure
+                continue
+            o = probe.outcome_of(scalar, cell, strict=ctx["strict"], passthrough=ctx["pt"])
+            expected.append(o)
+            if o[0] == "raise" and first_failure is None:
+                first_failure = i
+        injected = S.failpoint is not None
+        if calls and not injected:
+            # cross-check: if the bulk call went through the public scalar methods, they must be the dictated ones
+            for i, ev in enumerate(calls):
+                ekw = ev["kwargs"]
+                if ev["fn"] != ctx["scalar"] or bool(ekw.get("strict", False)) != ctx["strict"] or bool(ekw.get("passthrough", False)) != ctx["pt"]:
+                    S.counters["bulk:trace-shows-other-scalar-or-flags"] += 1
+                    break
         if kind == "raise":
-            short = ctx["kind"] == "file" and any(c is None for c in cells)
-            if not raised_scalar and not short:
-                violation(["C16"], mon, "bulk-raises-although-no-cell-failed", observed=val, **w)
+            if first_failure is None and not injected:
+                mech = "bulk-raises-although-no-cell-failed"
+                violation(["C16"], mon, mech, observed=val, **w)
             if ctx["kind"] == "file":
                 evaluated("bulk:atomicity")
                 now = ctx["path"].read_bytes() if ctx["path"].exists() else None
                 if now != ctx["bytes"]:
                     violation(["C16"], mon, "file-changed-although-the-operation-raised", observed=val,
-                              failing_call=len(calls), bytes_before=ctx["bytes"].decode("utf-8", "replace")[:400],
+                              first_failing_row=first_failure, bytes_before=ctx["bytes"].decode("utf-8", "replace")[:400],
                               bytes_after=None if now is None else now.decode("utf-8", "replace")[:400], **w)
             return
-        if raised_scalar:
-            violation(["C16"], mon, "bulk-swallows-a-failing-cell", **w)
+        if first_failure is not None:
+            violation(["C16"], mon, "bulk-swallows-a-failing-cell", failing_row=first_failure, failing_cell=cells[first_failure],
+                      scalar_outcome=expected[first_failure], **w)
             return
-        if len(calls) != len(cells):
-            violation(["C16"], mon, "not-one-scalar-call-per-cell", calls=len(calls), cells=len(cells), **w)
-            return
-        results = [ev["outcome"][1] for ev in calls]
+        results = [o[1] for o in expected]
         if ctx["kind"] == "pd":
             df = ctx["df"]
             out_col = ctx["column"] if ctx["target"] is None else ctx["target"]
